@@ -177,6 +177,66 @@ def trimmed_outliers(ctx: Ctx, dtype):
              sample={"aggregator": f"TrimmedMean({b})", "family": "outliers", "rows": m, "permutations": len(perms)})
 
 
+def trimmed_repeated(ctx: Ctx, dtype):
+    """TrimmedMean on columns with REPEATED non-zero entries (sign-compressed / clipped gradients: values in {-3, 0, 3, 7}):
+    the result is a function of the sorted column — a run of equal values that spans the trimming boundary is trimmed by
+    COUNT, whichever rows carry it.  (No tie is excluded here: equal entries are not "scores".)"""
+    from torchjd.aggregation import TrimmedMean
+    rng = ctx.rng
+    b = rng.choice([1, 2, 2, 3])
+    m = rng.randint(2 * b + 1, 2 * b + 4)
+    n = rng.choice([1, 2, 3])
+    J = [[float(rng.choice([-3, 0, 3, 3, 7])) for _ in range(n)] for _ in range(m)]
+    Jt = torch.tensor(J, dtype=dtype)
+    A = TrimmedMean(trim_number=b)
+    exp = torch.tensor([sum(sorted(J[r][c] for r in range(m))[b:m - b]) / (m - 2 * b) for c in range(n)], dtype=torch.float64)
+    rp = {"aggregator": f"TrimmedMean({b})", "family": "repeated values", "J": J, "dtype": str(dtype)}
+    perms = list(itertools.permutations(range(m))) if m <= 5 else [rng.sample(range(m), m) for _ in range(80)]
+    for p in [list(range(m))] + [list(q) for q in perms]:
+        y = A(Jt[p])
+        ctx.count("permutations_checked", "TrimmedMean:repeated-values")
+        if float((y.double() - exp).abs().max()) > 1e-5:
+            ctx.violation(f"TrimmedMean({b}) on columns with repeated entries, rows in the order {p}: {y.tolist()}; the mean of the "
+                          f"sorted columns without their {b} smallest and {b} largest entries is {exp.tolist()}", {**rp, "perm": p})
+            return
+    ctx.case(("tm-repeated", str(J), b, str(dtype)), nontrivial=True,
+             sample={"aggregator": f"TrimmedMean({b})", "family": "repeated values", "rows": m})
+
+
+def krum_small_scale(ctx: Ctx):
+    """Krum on a single-precision matrix of SMALL gradients (entries ~1e-7) with clearly separated scores (relative gaps of
+    several percent): the selection is a function of the matrix — nothing absolute (an epsilon added to the scores or to the
+    distances) may decide it"""
+    from torchjd.aggregation import Krum
+    rng = ctx.rng
+    m = rng.choice([5, 6, 7])
+    n = rng.choice([2, 3, 5])
+    f = 1
+    k = rng.choice([1, 2])
+    g = torch.Generator().manual_seed(rng.randrange(2 ** 31))
+    J0 = torch.randn(m, n, generator=g, dtype=torch.float64)
+    D = torch.cdist(J0, J0)
+    sc = D.topk(k=m - f - 2 + 1, largest=False).values[:, 1:].sum(dim=1).sort().values
+    gaps = (sc[1:] - sc[:-1]) / sc[1:]
+    if float(gaps.min()) < 0.03:
+        ctx.count("skipped_low_margin", "Krum small scale: score gap below 3%")
+        return
+    Jt = (J0 * 2.0 ** -23).to(torch.float32)
+    A = Krum(n_byzantine=f, n_selected=k)
+    x = A(Jt)
+    rp = {"aggregator": f"Krum({f},{k})", "family": "small scale, single precision", "J": Jt.tolist()}
+    perms = [rng.sample(range(m), m) for _ in range(30)]
+    for p in perms:
+        y = A(Jt[p])
+        ctx.count("permutations_checked", "Krum:small-scale")
+        if float((x - y).abs().max()) > 1e-3 * float(Jt.abs().max()):
+            ctx.violation(f"Krum({f},{k}) on a float32 matrix with entries ~1e-7 and score gaps >= 3%: permuting the rows by {p} "
+                          f"changes the result from {x.tolist()} to {y.tolist()}", {**rp, "perm": p})
+            return
+    ctx.case(("krum-small", m, n, k, str(Jt.tolist())), nontrivial=True,
+             sample={"aggregator": f"Krum({f},{k})", "family": "small scale", "rows": m})
+
+
 def top_of_range(ctx: Ctx, dtype):
     """finite matrices whose first column sits near the top of the dtype's range with mixed signs: Mean, Constant (small
     weights) and TrimmedMean (extremes trimmed) have a finite value without intermediate overflow in every row order, so
@@ -222,6 +282,10 @@ def main(ctx: Ctx):
     for i in range(6 if ctx.tier == "quick" else 400):
         trimmed_outliers(ctx, torch.float64 if i % 2 == 0 else torch.float32)
         top_of_range(ctx, torch.float32 if i % 2 == 0 else torch.float64)
+        trimmed_repeated(ctx, torch.float64 if i % 2 == 0 else torch.float32)
+        trimmed_repeated(ctx, torch.float32 if i % 2 == 0 else torch.float64)
+        krum_small_scale(ctx)
+        krum_small_scale(ctx)
     cat = [s for s in catalogue() if s.name in INVARIANT]
     quick = ctx.tier == "quick"
     reps = 5 if quick else 150
